@@ -304,10 +304,11 @@ func (n *LNNode) Pay(life *Life, payreq, scid string, limit uint32, kind string)
 		}
 		n.w.mu.Lock()
 		defer n.w.mu.Unlock()
-		retObs("join-pending")
 		if p.State == PaySucceeded {
+			retObs("join-pending:ok")
 			return p.Preimage, nil
 		}
+		retObs("join-pending:failed")
 		return "", errors.New("payment failed: WIRE_TEMPORARY_CHANNEL_FAILURE")
 	}
 	// new attempt
@@ -352,10 +353,11 @@ func (n *LNNode) Pay(life *Life, payreq, scid string, limit uint32, kind string)
 		}
 		n.w.mu.Lock()
 		defer n.w.mu.Unlock()
-		retObs("hold")
 		if p.State == PaySucceeded {
+			retObs("hold:ok")
 			return p.Preimage, nil
 		}
+		retObs("hold:failed")
 		return "", errors.New("payment failed after hold")
 	}
 	pre, after := n.w.settleLocked(inv, payreq)
